@@ -79,7 +79,7 @@ LeafNodes == {LeafNode(l, TRUE) : l \in ObjLeaves} \cup {LeafNode(l, FALSE) : l 
 
 IsNpc(t, z) == z = "zero" /\ (IsInt(t) \/ t = Ptr(Void))
 Node(e, x, m, d, devs, ibf, z) ==
-  [e |-> e, x |-> [x EXCEPT !.npc = IsNpc(x.t, z)], m |-> [m EXCEPT !.npc = IsNpc(x.t, z)], d |-> d, devs |-> devs, obj |-> FALSE, ibf |-> ibf, z |-> z]
+  [e |-> e, x |-> [x EXCEPT !.npc = IsNpc(x.t, z)], m |-> [m EXCEPT !.npc = IsNpc(x.t, z) \/ @], d |-> d, devs |-> devs, obj |-> FALSE, ibf |-> ibf, z |-> z]
 ZConst(S) == IF \A n \in S : n.z # "na" THEN "unknown" ELSE "na"
 ZNot(a) == IF a.z = "zero" THEN "nonzero" ELSE IF a.z = "na" THEN "na" ELSE "unknown"
 
@@ -147,11 +147,23 @@ G_Cond ==
          xt == TypeOfCond(a.x, b.x, targ)
          f(D) == IF CondIsConstant(cv) THEN M_condexpr_folded(a.m, b.m, CondSelectsFirst(cv), targ, D).t ELSE M_condexpr(a.m, b.m, targ, D).t
          ctext == IF CondIsConstant(cv) THEN cv ELSE c0.e
+         \* deviation FoldedCondKeepsDecay: the folded node is exprconvert(selected, t); in the null-pointer-constant rows t IS the
+         \* selected operand's type, so the operand's own node comes back, and if that is a decayed array / function designator
+         \* it still carries `decayed`: sizeof and typeof look through it at the array / function
+         sel == IF CondSelectsFirst(cv) THEN a ELSE b
+         oth == IF CondSelectsFirst(cv) THEN b ELSE a
+         keepsdecay == "FoldedCondKeepsDecay" \in Devs /\ CondIsConstant(cv) /\ sel.m.t.k \in {"arr", "fn"} /\ oth.x.npc
+         \* deviation FoldedNullVoidPtrIsNpc: nullpointer() accepts every constant of type pointer-to-void and value 0, so a folded
+         \* `K ? 0 : vp` (a null pointer of type void *, but neither an integer constant expression nor a cast of one) is
+         \* taken for a null pointer constant by an enclosing ?: or ==
+         nullvp == "FoldedNullVoidPtrIsNpc" \in Devs /\ CondIsConstant(cv) /\ sel.x.npc /\ IsPtr(f(Devs)) /\ f(Devs).to.k = "void"
+         mres == IF keepsdecay THEN [sel.m EXCEPT !.npc = FALSE] ELSE [MV(f(Devs)) EXCEPT !.npc = nullvp]
          \* 6.2.7p3 does not say what the composite of an enumerated type and its compatible integer type is
          det == (IsPtr(VT(a)) /\ IsPtr(VT(b)) /\ PtrTargetsCompatible(VT(a), VT(b))) => CompositeDetermined(Unq(VT(a).to), Unq(VT(b).to))
      IN /\ Fresh(a) /\ Fresh(b) /\ OkBoth(xt, f(Devs)) /\ det
-        /\ Add(Node("(" \o ctext \o " ? " \o a.e \o " : " \o b.e \o ")", XV(xt), MV(f(Devs)), 1 + Max2(a.d, b.d),
-                    a.devs \cup b.devs \cup LocalFired(f), a.ibf \/ b.ibf \/ (~CondIsConstant(cv) /\ c0.ibf),
+        /\ Add(Node("(" \o ctext \o " ? " \o a.e \o " : " \o b.e \o ")", XV(xt), mres, 1 + Max2(a.d, b.d),
+                    a.devs \cup b.devs \cup LocalFired(f) \cup (IF keepsdecay THEN {"FoldedCondKeepsDecay"} ELSE {})
+                    \cup (IF nullvp THEN {"FoldedNullVoidPtrIsNpc"} ELSE {}), a.ibf \/ b.ibf \/ (~CondIsConstant(cv) /\ c0.ibf),
                     IF CondIsConstant(cv) THEN "unknown" ELSE "na"))
 
 (* ---- cast --------------------------------------------------------------------- *)
